@@ -17,8 +17,11 @@ def impl_bin():
 TRANSLATORS = ["error_codes", "macroapi", "error_consts"]     # error_consts: Model/MacroApi.v err_invalid_params / err_not_found
 MODELS = ["macroapi"]
 BINS = {"release": ["macroapi"]}
-RULE = ("case = one call on one of the compiled APIs (6 traits, 37 methods/subscriptions: 0..5 parameters, Option tails of 1, 2 and 3 "
+RULE = ("case = one call on one of the compiled APIs (7 traits, 48 methods/subscriptions: 0..5 parameters, Option tails of 1, 2, 3 and 4 "
         "(positional methods and a positional subscription; every None/Some pattern of the tail is driven through the generated stub), "
+        "Option parameters spelled `std::option::Option<T>`, `core::option::Option<T>`, `::core::option::Option<T>`, `option::Option<T>` next to the "
+        "prelude `Option<T>` (trait Spell: sync/async/blocking methods and subscriptions, positional and by-name; for each of them every "
+        "positional presentation is enumerated: tail omitted at every length x every null/value pattern of the Option arguments given), "
         "an Option in the middle, all-Option, param_kind array/map, renamed arguments, parameters written as raw identifiers (`r#type`, `r#ref`, .. "
         "un-renamed by name and positional, in a by-name subscription, renamed, as an Option tail) and with leading / trailing underscores and "
         "digits (`_lead`, `trail_`, `mid1dle`, `r#type_`), namespace with default/custom/empty separator, "
@@ -42,7 +45,11 @@ TRUSTED = [
     "descriptions of coq/Gen/MacroApiGen.v; cross-checked on every run against RpcModule::method_names() of the compiled modules and by the differential run; "
     "it also reads how the by-name member key is derived on each side (RpcFnArg::name in rpc_macro.rs, the ParamKind::Map branch of render_client.rs, the "
     "ParamsObject fields of render_server.rs: a small fragment of string expressions, anything else is an anchor error) and writes the resulting client key / "
-    "server keys of every parameter as `family_keys` (C17_by_name_keys_agree); that syn::Ident::to_string() keeps `r#` is taken from the token text and judged by the differential run",
+    "server keys of every parameter as `family_keys` (C17_by_name_keys_agree); that syn::Ident::to_string() keeps `r#` is taken from the token text and judged by the differential run; "
+    "and it reads the rule by which the macro takes a parameter for optional (helpers::is_option: last-segment test, whitelist of full paths or ends_with over the path "
+    "segments, anything else is an anchor error; that render_params_decoding is its only caller and picks optional_next/next by it is checked textually), applies it to "
+    "the spelling of every parameter type and writes the decisions as p_opt and as `family_options` (C17_option_spellings_are_optional); the Python oracle does not use "
+    "this reading (it goes by the declared type), step 0d compares the reading with a fixed reference",
     "modelled, not verified: the proc-macro's expansion step (syn/quote) is not translated -- coq/Model/MacroApi.v models the code it emits "
     "(render_client.rs / render_server.rs read by hand), tied to the compiled expansion only by the differential run over the compiled family",
     "modelled, not verified: serde's typed (de)serialisation of argument/result types is a parameter (enc/dec) of the theorems; the driver instance "
@@ -59,7 +66,10 @@ ASSUMPTIONS = [
     "for by-name calls no two parameters of a method share a wire name / snake_case alias / lowerCamelCase alias (labelled negative example "
     "collide(a_b, aB), C17_collision_refuted); declared method names, aliases, subscribe and unsubscribe names are pairwise distinct (the macro "
     "rejects a clash at compile time)",
-    "a parameter is optional iff its declared type is syntactically `Option<..>` (helpers::is_option), assumed to be std's Option",
+    "optional parameters are those declared with std's Option under one of the spellings `Option`, `option::Option` (with `use std::option`), `std::option::Option`, "
+    "`core::option::Option`, with or without a leading `::`; the macro decides from the spelling (helpers::is_option, read from the source on every run: "
+    "C17_option_spellings_are_optional for the compiled family).  A type alias of Option (not recognisable by any spelling rule: such a parameter accepts null but "
+    "cannot be omitted) and a user type that is merely named `Option` are outside",
     "error objects returned by a method have a data member that is not the JSON text `null` (C15: Option<RawValue> reads null back as absent)",
     "methods WITHOUT a return type are outside the property: the stub sends a notification and a jsonrpsee server never runs a handler for a "
     "notification (shown as the labelled boundary case Plain::note: frame sent, no handler ran)",
@@ -106,6 +116,24 @@ def keys_of(q):
     translator's reading of the macro sources (T.key_rules): that reading is compared with this in run() step (0c)"""
     n = p_name(q)
     return [n, snake(n), camel(n)]
+
+
+def ref_is_option(path):
+    """the reference for helpers::is_option: a type is taken for optional iff it is a path whose last segment is `Option`
+    (path = (leading `::`, segments), None for a tuple / unit).  Fixed here, NOT taken from the translator's reading of
+    helpers.rs (T.option_rule): that reading is compared with this in run() step (0d)"""
+    return path is not None and path[1][-1] == "Option"
+
+
+# spellings beyond those of the family on which the reading of is_option is compared with the reference
+OPTION_PROBES = sorted(T.OPTION_SPELLINGS) + [(False, ("settings", "Option")), (False, ("my", "option", "Option")), (True, ("alloc", "option", "Option")),
+                                              (False, ("foo", "bar", "Option", "Booyah")), (False, ("Vec",)), (False, ("Optional",)), (False, ("option",)),
+                                              (False, ("Option", "Some")), (False, ("std", "option", "Opt")), None]
+
+
+def qualified_option(q):
+    """an Option parameter spelled otherwise than the prelude `Option<T>`"""
+    return q["opt"] and T.option_spelling(*q["path"]) != "prelude"
 
 
 def near_keys(q):
@@ -335,6 +363,17 @@ RET = {
     "5.m5": lambda a: list(a),
     "5.s0": lambda a: [[(a[0] + i) % 2**32, a[1] + str(i)] for i in range(1 + a[0] % 3)],
     "5.s1": lambda a: [((a[1] if a[1] is not None else 5) + i) % U64 for i in range(1 + a[0] % 3)],
+    "6.m0": lambda a: list(a),
+    "6.m1": lambda a: list(a),
+    "6.m2": lambda a: list(a),
+    "6.m3": lambda a: list(a),
+    "6.m4": lambda a: list(a),
+    "6.m5": lambda a: list(a),
+    "6.m6": lambda a: list(a),
+    "6.m7": lambda a: list(a),
+    "6.m8": lambda a: list(a),
+    "6.s0": lambda a: [[(a[0] + i) % 2**32, a[1], a[2]] for i in range(1 + a[0] % 3)],
+    "6.s1": lambda a: [((a[1] if a[1] is not None else 9) + i) % U64 for i in range(1 + a[0] % 3)],
 }
 # labelled examples: (api index, handler) -> why it is outside the property's hypotheses
 NEG_COLLIDE = "4.m0"      # a_b / aB: by-name decoding is ambiguous
@@ -536,7 +575,7 @@ def gen_cases(ctx, ref):
                     mk("stub", ai, "m%d" % idx, hx(dumps(args, rng)), outcome, "-", "-", "neg-collide", e, {})
                     continue
                 e = expect_call(ai, kind, idx, args, oc, wire, uname, True)
-                tag = "stub-" + pk if plan is None else "stub-tail-" + "".join("S" if x else "N" for x in plan)
+                tag = "stub-" + pk if plan is None else ("stub-spelled-tail-" if any(qualified_option(q) for q in params) else "stub-tail-") + "".join("S" if x else "N" for x in plan)
                 mk("stub", ai, "%s%d" % (kind, idx), hx(dumps(args, rng)), outcome, "-", ret_of(e), tag, e, {})
             if hid == NEG_OPTOPT:
                 continue
@@ -544,7 +583,16 @@ def gen_cases(ctx, ref):
             nreq = len(params)
             while nreq > 0 and params[nreq - 1]["opt"]:
                 nreq -= 1
-            for _ in range(n_raw * (2 if params else 1)):
+            # methods with an Option parameter spelled `std::option::Option` / `core::option::Option` / ..: every positional
+            # presentation (the array cut after any number >= nreq of arguments, every null / value pattern of the Option
+            # arguments that are given), then the random presentations as for every method
+            forced = []
+            if any(qualified_option(q) for q in params):
+                for cut in range(nreq, len(params) + 1):
+                    optpos = [i for i in range(cut) if params[i]["opt"]]
+                    for pat in itertools.product([False, True], repeat=len(optpos)):
+                        forced += [(cut, dict(zip(optpos, pat)))] * 2
+            for plan in forced + [None] * (n_raw * (2 if params else 1)):
                 outcome, oc = gen_outcome(rng)
                 if hid == BOUNDARY_NOTE:
                     outcome, oc = "ok", None          # a method without return type has no way to answer an error
@@ -557,6 +605,22 @@ def gen_cases(ctx, ref):
                     # no decoding code is emitted: whatever the params are, the method runs
                     ptxt = rng.choice([None, b"[]", b"[ ]", b"[1,2]", b"{\"x\":1}", b"5", b"\"s\"", b"null", b"[null]"])
                     tag = "raw-noparams"
+                elif plan is not None:
+                    cut, some = plan
+                    vals = []
+                    for i, (q, v) in enumerate(zip(params, args)):
+                        if i >= cut:
+                            expect_args[i] = None
+                            continue
+                        if q["opt"]:
+                            v = gen_value(rng, q["ty"], types) if some[i] else None
+                            expect_args[i] = v
+                        vals.append(v)
+                    if cut == 0 and rng.random() < 0.5:
+                        ptxt = rng.choice([None, b"[]", b"null"])
+                    else:
+                        ptxt = emit_array(rng, vals)
+                    tag = "raw-spelled-omitted" if cut < len(params) else "raw-spelled-present" if all(some.values()) else "raw-spelled-null"
                 elif r < 0.30:
                     # positional: trailing optionals given / null / omitted
                     cut = rng.randint(nreq, len(params))
@@ -685,7 +749,8 @@ def gen_cases(ctx, ref):
                 if dec == "invalid":
                     e = {"h": None, "a": None, "wire": None, "c": ("err", -32602, "Invalid params", "*")}
                 else:
-                    if tag in ("raw-pos-full", "raw-pos-omitted", "raw-pos-absent", "raw-pos-surplus", "raw-named") and hid != NEG_COLLIDE:
+                    if tag in ("raw-pos-full", "raw-pos-omitted", "raw-pos-absent", "raw-pos-surplus", "raw-named", "raw-spelled-omitted", "raw-spelled-null",
+                               "raw-spelled-present") and hid != NEG_COLLIDE:
                         assert dec == expect_args, (hid, ptxt, dec, expect_args)       # the generator's own bookkeeping
                     e = expect_call(ai, kind, idx, dec, oc, None, un_used if kind == "s" else None, un_res)
                     if hid == BOUNDARY_NOTE:
@@ -917,6 +982,24 @@ def run(ctx):
                                  {"macro sources (client key, server keys)": got, "reference": (p_name(q), keys_of(q)),
                                   "rules": {k: (T.ops_text(v) if k != "server" else [T.ops_text(o) for o in v]) for k, v in rules.items()}})
         ctx.count("key-rule-params", sum(len(it["params"]) for a in ref.apis for it in a["methods"] + a["subs"]))
+    # (0d) the optionality rule the translator read from helpers::is_option (it feeds p_opt of the descriptions, Gen.family_options
+    # and C17_option_spellings_are_optional) against the fixed reference of this module, on every parameter type of the family
+    # and on a list of further spellings
+    try:
+        orule = T.option_rule()
+    except T.ParseError as e:
+        ctx.fail("translate", "translator-anchor-missing:macroapi", "proc-macros/src/helpers.rs", str(e))
+        orule = None
+    if orule is not None:
+        probes = [({"trait": a["trait"], "fn": it["fn"], "param": q["ident"]}, q["path"])
+                  for a in ref.apis for it in a["methods"] + a["subs"] for q in it["params"]] + [({"probe": T.path_text(pp)}, pp) for pp in OPTION_PROBES]
+        for desc, pp in probes:
+            ctx.evaluations += 1
+            got, want = T.rule_applies(orule, pp), ref_is_option(pp)
+            if got != want:
+                ctx.fail("diff", "macro-option-rule-differs", dict(desc, type=T.path_text(pp)),
+                         {"macro source decides optional": got, "reference": want, "rule read from helpers.rs": T.rule_text(orule)})
+        ctx.count("option-rule-types", len(probes))
     # (1) calls, in rounds of the quick size (bounds the memory of the thorough tier).  Oracle failures (the property) are
     # reported as they are found, correspondence diffs are kept back and reported after them (at most 300 of each key).
     diffs, ndiff = [], {}
